@@ -24,9 +24,10 @@ type Opts struct {
 	// NoHeredoc / NoSubst / NoComments narrow the domain for specific checks.
 	NoHeredoc bool
 	NoSubst   bool
-	// OneLine forbids newline tokens at the top nesting level of the
-	// command (used for streams of single-line commands).
+	// OneLine forbids newline tokens (single-line commands).
 	OneLine bool
+	// MoreHeredocs makes every second redirection a here-document.
+	MoreHeredocs bool
 }
 
 // Program is one generated complete command.
@@ -1002,7 +1003,11 @@ func (g *g) redir() string {
 		n = g.pick("ionum_v", "2", "0", "10", "1")
 		g.s.add(text(KIONum, n)).Depth = len(g.stack)
 	}
-	if !g.o.NoHeredoc && g.nohd == 0 && !g.bq && !(g.o.OneLine) && g.chance("heredoc", 4) && len(g.hds) < 4 {
+	hdOdds := 4
+	if g.o.MoreHeredocs {
+		hdOdds = 2
+	}
+	if !g.o.NoHeredoc && g.nohd == 0 && !g.bq && !(g.o.OneLine) && g.chance("heredoc", hdOdds) && len(g.hds) < 4 {
 		return g.heredoc(n)
 	}
 	op := redirOps[g.ch.Intn(len(redirOps), "redir_op")]
